@@ -22,3 +22,6 @@ package registry
 //@   requires process != nil
 //@   invokes process -- called for every entry while registryLk is read-held: what it may acquire is each caller's obligation
 //@   loop 0 invariant [all-entries] true
+
+//@ func registry.NewRegistry {C04,C20}
+//@   constructor
